@@ -26,4 +26,23 @@ theorem full_image_loads (g : G Label Hex) (h : WfG g) : load g.n (save g) = .ok
 example : ∃ g, demoG = some g ∧ WfG g ∧ 100 < (save g).length := by
   refine ⟨_, rfl, ?_, ?_⟩ <;> decide +kernel
 
+/-! ### graphs with removed slots (`join()` inside a non-tree `merge`, Core/Holes.lean)
+
+C09 quantifies over *every reachable graph*. After a merge that reached `join` the vertex store has a removed slot;
+`Serialize for emap::Map` then writes the number of occupied slots and the occupied slots with their keys, so the keys of the
+image have a gap (`saveX`, Codec/Holes.lean). The complete image of such a graph does not load (the real decoder sizes the table
+by the entry count and panics on the keys after the gap) — but every *cut* image is still rejected with EOF, because the decoder
+reads the whole length-prefixed sequence before it looks at any key. -/
+
+/-- every cut point of the image of a graph with removed slots -/
+theorem truncated_rejected_with_removed_slots (x : Sodg.GX Label Hex) (h : WfG x.g) (k : Nat) (hk : k < (saveX x).length) :
+    load x.g.n ((saveX x).take k) = .error .eof := Cd.load_truncatedX' x h k hk
+
+/-- with no removed slot `saveX` is `save` -/
+theorem image_without_removed_slots (g : G Label Hex) : saveX ⟨g, []⟩ = save g := Cd.saveX_nohole g
+
+/-- non-vacuity: the demo graph with its slot 1 removed is such a graph, and its image is shorter than the full one -/
+example : ∃ g, demoG = some g ∧ WfG g ∧ (saveX ⟨g, [1]⟩).length < (save g).length := by
+  refine ⟨_, rfl, ?_, ?_⟩ <;> decide +kernel
+
 end Props.C09
